@@ -91,7 +91,137 @@ fn specs(unit: &Value) -> Vec<(bool, RpcSpec, Option<String>)> {
     }
 }
 
+const FAIL_MODES: [&str; 8] = [
+    "resp-over-callee-limit",
+    "resp-over-caller-limit",
+    "req-over-callee-limit",
+    "caller-timeout",
+    "callee-timeout",
+    "callee-disconnects",
+    "caller-disconnects",
+    "callee-shuts-down",
+];
+
+/// RPCs that fail at various points (before, inside, after the handler): whatever the outcome,
+/// a request reaches a handler at most once and a success carries the right response.
+async fn scenario_fail(sim: Arc<Sim>, unit: Value) -> Obs {
+    let mode = unit["mode"].as_str().unwrap().to_string();
+    let mut ca = anemo::Config::default();
+    let mut cb = anemo::Config::default();
+    match mode.as_str() {
+        "resp-over-callee-limit" | "req-over-callee-limit" => cb.max_frame_size = Some(2000),
+        "resp-over-caller-limit" => ca.max_frame_size = Some(1000),
+        "caller-timeout" => ca.outbound_request_timeout_ms = Some(50),
+        "callee-timeout" => cb.inbound_request_timeout_ms = Some(50),
+        _ => {}
+    }
+    let a = sim.start(&NodeSpec::new(1).config(ca)).unwrap();
+    let b = sim.start(&NodeSpec::new(2).config(cb)).unwrap();
+    let (_na, nb) = (sim.node_of(&a), sim.node_of(&b));
+    let mut log = vec![];
+    let mut violations = vec![];
+    if let Err(e) = a.connect(b.local_addr()).await {
+        violations.push(("setup".to_string(), format!("connect failed without faults: {e}")));
+        return Obs { log, violations, oks: 0, errs: 0, completion_order: vec![], deviations_possible: false };
+    }
+    tokio::time::sleep(ms(50)).await;
+    let budget = unit["fate_budget"].as_u64().unwrap_or(0) as usize;
+    sim.fabric.set_fate_window(0, budget);
+    let main = match mode.as_str() {
+        "resp-over-callee-limit" => RpcSpec::new("main").route("/f").header("resp-len", "2500"),
+        "resp-over-caller-limit" => RpcSpec::new("main").route("/f").header("resp-len", "1500"),
+        "req-over-callee-limit" => RpcSpec::new("main").route("/f").body(pattern_body(1, 2500)),
+        "caller-timeout" | "callee-timeout" => RpcSpec::new("main").route("/f").header("sleep-ms", "200"),
+        _ => RpcSpec::new("main").route("/f").header("gate", "g").body(pattern_body(2, 100)),
+    };
+    let before = RpcSpec::new("before").route("/s").body(pattern_body(3, 50));
+    let after = RpcSpec::new("after").route("/s").body(pattern_body(4, 60));
+    let mut outcomes: Vec<(RpcSpec, RpcOutcome)> = vec![];
+    let horizon = |sim: Arc<Sim>, net: anemo::Network, to: anemo::PeerId, spec: RpcSpec| async move {
+        match tokio::time::timeout(ms(15_000), do_rpc(&sim, &net, to, &spec)).await {
+            Ok(o) => (spec, o),
+            Err(_) => {
+                let o = RpcOutcome { id: spec.id.clone(), result: Err("harness horizon (15 s) reached".into()), t_start_us: 0, t_end_us: sim.now_us() };
+                (spec, o)
+            }
+        }
+    };
+    outcomes.push(horizon(sim.clone(), a.clone(), b.peer_id(), before).await);
+    let h = tokio::spawn(horizon(sim.clone(), a.clone(), b.peer_id(), main));
+    match mode.as_str() {
+        "callee-disconnects" => {
+            tokio::time::sleep(ms(30)).await;
+            let _ = b.disconnect(a.peer_id());
+            tokio::time::sleep(ms(5)).await;
+            sim.svc.release("g");
+        }
+        "caller-disconnects" => {
+            tokio::time::sleep(ms(30)).await;
+            let _ = a.disconnect(b.peer_id());
+            tokio::time::sleep(ms(5)).await;
+            sim.svc.release("g");
+        }
+        "callee-shuts-down" => {
+            tokio::time::sleep(ms(30)).await;
+            let b2 = b.clone();
+            tokio::spawn(async move { let _ = b2.shutdown().await; });
+            tokio::time::sleep(ms(5)).await;
+            sim.svc.release("g");
+        }
+        _ => {}
+    }
+    outcomes.push(h.await.unwrap());
+    // the connection may be gone by design in the disconnect modes: re-dial before the follow-up
+    if mode.ends_with("disconnects") {
+        tokio::time::sleep(ms(100)).await;
+        let _ = a.connect(b.local_addr()).await;
+    }
+    if mode != "callee-shuts-down" {
+        outcomes.push(horizon(sim.clone(), a.clone(), b.peer_id(), after).await);
+    }
+    sim.fabric.set_fate_budget(0);
+    tokio::time::sleep(ms(500)).await;
+    let (mut oks, mut errs) = (0, 0);
+    for (spec, o) in &outcomes {
+        match &o.result {
+            Ok(ok) => {
+                oks += 1;
+                // a RequestTimeout answer is produced by the timeout layer, not by the handler
+                let timeout_answer = mode == "callee-timeout" && spec.id == "main" && ok.status == anemo::types::response::StatusCode::RequestTimeout;
+                if !timeout_answer {
+                    if let Err(e) = check_response(spec, ok, b.peer_id()) {
+                        violations.push(("wrong-response".to_string(), format!("[{mode}] {e}")));
+                    }
+                }
+                log.push(format!("[{mode}] rpc {} ok status={:?}", spec.id, ok.status));
+            }
+            Err(e) => {
+                errs += 1;
+                log.push(format!("[{mode}] rpc {} err {}", spec.id, e.chars().take(80).collect::<String>()));
+            }
+        }
+        match check_seen(&sim, spec, nb, a.peer_id()) {
+            Ok(n) => {
+                if o.result.is_ok() && n != 1 && !(mode == "callee-timeout" && spec.id == "main") {
+                    violations.push(("phantom-response".to_string(), format!("[{mode}] rpc {} succeeded but its request reached a handler {n} times", spec.id)));
+                }
+            }
+            Err(e) => violations.push(("request-delivery".to_string(), format!("[{mode}] {e}"))),
+        }
+        let starts = sim.svc.started(&spec.id);
+        if starts > 1 {
+            violations.push(("request-delivery".to_string(), format!("[{mode}] request {} started a handler {starts} times", spec.id)));
+        }
+    }
+    let deviations_possible = budget > 0;
+    // sanity of the scenario itself: without faults the surrounding RPCs must succeed
+    Obs { log, violations, oks, errs, completion_order: vec![mode], deviations_possible }
+}
+
 async fn scenario(sim: Arc<Sim>, unit: Value) -> Obs {
+    if unit["kind"] == "fail" {
+        return scenario_fail(sim, unit).await;
+    }
     let a = sim.start(&NodeSpec::new(1)).unwrap();
     let b = sim.start(&NodeSpec::new(2)).unwrap();
     let (na, nb) = (sim.node_of(&a), sim.node_of(&b));
@@ -214,7 +344,15 @@ async fn scenario(sim: Arc<Sim>, unit: Value) -> Obs {
 fn judge(o: &Obs, choices: &[u32]) -> Judged {
     let mut v = o.violations.clone();
     let deviations = choices.iter().filter(|c| **c != 0).count();
-    if deviations == 0 && o.errs > 0 {
+    let fail_mode = o.completion_order.len() == 1 && FAIL_MODES.contains(&o.completion_order[0].as_str());
+    if fail_mode && deviations == 0 {
+        for l in &o.log {
+            if (l.contains("rpc before err") || l.contains("rpc after err")) && !l.contains("callee-shuts-down") {
+                v.push(("rpc-failed-without-faults".to_string(), format!("a well-formed RPC next to a failing one failed: {l}")));
+            }
+        }
+    }
+    if !fail_mode && deviations == 0 && o.errs > 0 {
         v.push((
             "rpc-failed-without-faults".to_string(),
             format!("{} RPC(s) failed although no fault was injected: {:?}", o.errs, o.log),
@@ -274,6 +412,9 @@ impl Check for C02 {
                     }
                 }
             }
+        }
+        for mode in FAIL_MODES {
+            u.push(json!({"kind":"fail","mode":mode,"bound":tier.pick(1,2),"fate_budget":tier.pick(40,80)}));
         }
         for variant in 0..6 {
             for ab in [true, false] {
